@@ -24,13 +24,13 @@ PY = '/venv/bin/python'
 
 REGISTRY = {
     # prop: (module, class, {tier: (runs, wall_budget_s)})
-    'C01': ('sim.engines.session_box', 'BoxEngine', {'quick': (600, 120), 'thorough': (150000, 900)}),
-    'C06': ('sim.engines.session_atoms', 'AtomsEngine', {'quick': (600, 120), 'thorough': (120000, 900)}),
-    'C15': ('sim.engines.session_point', 'PointEngine', {'quick': (500, 120), 'thorough': (80000, 900)}),
-    'C09': ('sim.engines.epochs_c09', 'UnitsEngine', {'quick': (500, 120), 'thorough': (100000, 900)}),
-    'C10': ('sim.engines.epochs_c10', 'ModelEngine', {'quick': (400, 120), 'thorough': (60000, 900)}),
-    'C08': ('sim.engines.channel_rt', 'ChannelEngine', {'quick': (300, 150), 'thorough': (40000, 900)}),
-    'C19': ('sim.engines.cosim', 'CosimEngine', {'quick': (400, 150), 'thorough': (40000, 900)}),
+    'C01': ('sim.engines.session_box', 'BoxEngine', {'quick': (4000, 240), 'thorough': (300000, 1500)}),
+    'C06': ('sim.engines.session_atoms', 'AtomsEngine', {'quick': (4000, 240), 'thorough': (300000, 1500)}),
+    'C15': ('sim.engines.session_point', 'PointEngine', {'quick': (3000, 240), 'thorough': (150000, 1500)}),
+    'C09': ('sim.engines.epochs_c09', 'UnitsEngine', {'quick': (3000, 240), 'thorough': (200000, 1500)}),
+    'C10': ('sim.engines.epochs_c10', 'ModelEngine', {'quick': (3000, 240), 'thorough': (300000, 1500)}),
+    'C08': ('sim.engines.channel_rt', 'ChannelEngine', {'quick': (2000, 240), 'thorough': (120000, 1500)}),
+    'C19': ('sim.engines.cosim', 'CosimEngine', {'quick': (2500, 240), 'thorough': (120000, 1500)}),
 }
 
 
